@@ -76,6 +76,10 @@ def make_cfg(rng, i, base=None):
             for _ in range(rng.randint(1, 2)):
                 letter = rng.choice("abcdefz")
                 inner = ("IF", ("S", [("T", "1")]), ("S", [("T", letter)]), ("S", [("T", "")]))
+                if rng.random() < 0.5:
+                    # ... or by a call of a library template (selected or not): {{t{{ta}}|x}}
+                    n = rng.choice(NAMES)
+                    inner = ("C", n, n, [("pos", ("S", [("T", letter)]))] if rng.random() < 0.4 else [])
                 args = [("pos", ("S", [("T", rng.choice(["x", "y 1", ""]))]))] if rng.random() < 0.6 else []
                 extra.append(("CN", "t", inner, "t" + letter, args))
             page = ("S", page[1] + extra)
